@@ -31,6 +31,10 @@ type SPlan struct {
 	Construct string `json:"construct,omitempty"`
 	// Comp selects Option.PubKeyComp ("to list credentials in a specific order"): "" default | asc | desc | certfirst | never
 	Comp string `json:"comp,omitempty"`
+	// Prelude: before the judged history the same process (and the same simulated clock) runs the history once on
+	// another shim instance with its own underlying agent ("same" upstream mode or the "other" one): whatever one
+	// instance learnt about the identities must not leak into the next
+	Prelude string `json:"prelude,omitempty"`
 }
 
 func pick[T any](r *sim.Rng, xs []T) T { return xs[r.Intn(len(xs))] }
@@ -237,6 +241,9 @@ func genS(prop string) func(r *sim.Rng, tier string) any {
 		if (prop == "C10" || prop == "C07") && r.Bool(0.3) {
 			p.Comp = pick(r, []string{"asc", "desc", "certfirst", "never"})
 		}
+		if r.Bool(0.12) {
+			p.Prelude = pick(r, []string{"same", "other"})
+		}
 		if prop == "C10" && r.Bool(0.08) {
 			p.Construct = pick(r, append([]string{"refuse_dial"}, refagent.AllFaults...))
 			p.Steps = p.Steps[:min(len(p.Steps), 4)]
@@ -294,6 +301,11 @@ func shrinkS(raw json.RawMessage) []json.RawMessage {
 	if p.Comp != "" {
 		q := clone()
 		q.Comp = ""
+		emit(q)
+	}
+	if p.Prelude != "" {
+		q := clone()
+		q.Prelude = ""
 		emit(q)
 	}
 	return out
